@@ -253,7 +253,7 @@ def run(tier):
         ck.violation("tie-broken:proof", "Props/C18.v no longer checks", getattr(ck, "proof_output", "")[-2000:])
     ck.coverage.update(
         evaluations=len(runs) + 2, distinct_nontrivial=len(distinct),
-        rule="the real penne binary (built from /repo with alpha,llvm-sys) on {valid, multi-file, invalid, valid+invalid} x {build, run, emit} x sampled combinations of --silent --verbose --color --arrows --out-dir --backend --config --wasm PENNE_BACKEND/PENNE_LLI with stub back ends that record their invocation and exit with 0 / 3 / SIGSEGV / do not exist; exit status, invoked backend, diagnostics (no ANSI under --color=never, ASCII under --arrows=ascii), .pn.ll files under --out-dir (checked by llvm-as) vs Model/Cli.v; the IR handed to the interpreter by `run` (valid, defines main and every function of every module); plus real lli runs of a one-module and a two-module program in both file orders, and an absolute input path; distinct = (subcommand, input, backend, success, backend result)",
+        rule="the real penne binary (built from /repo with alpha,llvm-sys) on {valid, multi-file, invalid, valid+invalid} x {build, run, emit} x sampled combinations of --silent --verbose --color --arrows --out-dir --backend --config --wasm PENNE_BACKEND/PENNE_LLI with stub back ends that record their invocation and exit with 0 / 3 / SIGSEGV / do not exist; exit status, invoked backend, diagnostics (no ANSI under --color=never, ASCII under --arrows=ascii), .pn.ll files under --out-dir (checked by llvm-as) vs Model/Cli.v; the IR handed to the interpreter by `run` (valid, defines main and every function of every module); plus real lli runs of a one-module and a two-module program in both file orders, and an absolute input path; distinct = (subcommand, input, backend, success, backend result); embedded packages given as directory arguments (vendor:libc, core:text) in both argument orders: exit 0 and one .pn.ll per module under its own name",
         stats=dict(stats), problems=bad,
         samples=[dict(config=str(configs[0]))])
     return ck.finish()
